@@ -497,6 +497,13 @@ func (s *Script) solve(toMS int) []Result {
 			defer wg.Done()
 			e := checks[i]
 			one := s.render(decls, i, false)
+			// the stand-alone retry gets three times the budget: an obligation that
+			// the incremental run could not settle in time (a loaded machine, an
+			// unlucky search) is only reported after a real second attempt
+			toMS := toMS
+			if e.kind == evCheck {
+				toMS *= 3
+			}
 			type ans struct {
 				st, model, solver, raw string
 				secs                   float64
